@@ -37,6 +37,42 @@ CHECKS["C16"] = dict(
     technique="Lean 4 proof (core Nat.toDigits lemmas, omega over div/mod) + pinned-source/extracted-table tie + differential correspondence",
     design="5/C16")
 
+CHECKS["C02"] = dict(
+    text="Lean 4: packed_roundtrip / zoned_roundtrip for every digit list, sign nibble and scale, binary_roundtrip for every in-range "
+         "integer of 2/4/8 bytes, *_injective, text_decodes_every_byte; the cp037 table of the running interpreter is proved a bijection "
+         "(Nodup by kernel evaluation). Tied to estruct.unpack by semantic extraction of the sign tests, the pinned function body and "
+         "differential execution incl. all halfwords, all text bytes, all 1-3 digit packed and 1-2 digit zoned values.",
+    note="Trusted: Lean kernel; decimal.Decimal tuple construction, struct.unpack('>h/>i/>q'), the cp037 codec and re's \\w\\d\\s classes "
+         "(tables read from the interpreter each run); Representation.parse's clause regex exercised with 'USAGE u PIC p' formats; COMP-1/2 "
+         "are not decoded by the code. Random sampling above 3 digits.",
+    technique="Lean 4 proof (induction over nibble/digit lists, omega for two's complement) + extraction tie + exhaustive/differential correspondence",
+    design="5/C02")
+CHECKS["C04"] = dict(
+    text="Lean 4: the layout size equals the COBOL storage rule for DISPLAY, packed, COMP-1/2 for all (s,m,n); the stored packed encoding "
+         "has exactly that many bytes; for binary the statement is proved for unsigned V-less pictures and machine-refuted in general "
+         "(known findings D6, D7). estruct.calcsize, the decoder's width ladder and Struct.struct_format are EXTRACTED from the source each "
+         "run and proved equal to the model for every usage spelling and every parsed picture; the whole finite domain is also executed.",
+    note="Trusted: Lean kernel, extract.py; numeric pictures are represented by numElts (their parsed form; the scanner producing it is C13's "
+         "model, exhaustively corresponded); five reporting sites compared by execution; binary is partial by the listed known findings.",
+    technique="Lean 4 proof by cases + omega; semantic extraction tie (Extracted = Model); exhaustive execution of the finite domain",
+    design="5/C04")
+CHECKS["C13"] = dict(
+    text="Lean 4: scan_denotes (an accepted picture is a picture by the inductive COBOL rule `Denotes` and its elements are exactly the "
+         "repeat-expanded symbol string: nothing skipped), scan_size / scan_size_denoted (size = positions, V counts 0), denotes_unique, "
+         "scan_case_insensitive; classification mismatch machine-witnessed (D13, D36). Both real scanners are corresponded with the model "
+         "exhaustively on all strings of <=4 (5) picture symbols.",
+    note="Trusted: Lean kernel; re.finditer on the pinned alternation is modelled by tok/scanGo (validated exhaustively); both scanners are "
+         "one model function because they run the same pinned alternation (Tie.same_alternation).",
+    technique="Lean 4 proof (inductive specification relation, structural induction) + pinned-source tie + exhaustive differential correspondence",
+    design="5/C13")
+CHECKS["C18"] = dict(
+    text="Lean 4: packed_fits_or_error and zoned_fits_or_error hold for EVERY byte string of the field's width (result refused, or exact "
+         "scale and no more digits than declared); for signed zoned items the full statement is machine-refuted (D31) and the partial one "
+         "proved. Corresponded with estruct.unpack on all byte strings of width 1-2 (3 thorough).",
+    note="Trusted: as C02. Known finding D31 (signed zoned sign-position byte) is a consequence of the C04 width convention.",
+    technique="Lean 4 proof (digit-list bounds) + exhaustive differential correspondence on short buffers",
+    design="5/C18")
+
 NOT_APPLICABLE = {
 }
 
